@@ -19,9 +19,9 @@ def load_known():
 # ----------------------------------------------------------------------------
 
 def attributed(desc, prop, harness):
-    m = re.match(r'^((?:C\d{2,3})(?:/C\d{2,3})*)[:/ ]', desc)
-    if m:
-        return prop in m.group(1).split('/')
+    # A failed check of a harness counts for every property the harness serves: the `Cxx:` prefix of a message
+    # names the sentence it was written for, but a kernel that misbehaves breaks all the properties that rest
+    # on it (an earlier, prefix-based attribution turned a seeded C09 break into "inconclusive").
     return True
 
 def classify_json(h, res, cbmc_stats, prop):
@@ -325,9 +325,10 @@ def confirm_by_playback(shard, prop, h, d, rest, logdir):
         blocks = re.findall(r'Concrete playback unit test for `[^`]*`:\n```\n(.*?)\n```', text, re.S)
         blocks = [b for b in blocks if 'Check for `cover`' not in b] or blocks
         if not blocks:
-            rp['why'] = 'Kani printed no concrete playback test (see %s)' % log
-            json.dump(rp, open(path, 'w'), indent=1)
-            return rp
+            # counterexample generation is heavier than deciding; when it does not get through, fall back to
+            # the second-solver confirmation
+            rp['playback_note'] = 'Kani printed no concrete playback test (see %s); confirmed with a second solver instead' % log
+            return confirm_by_second_solver(shard, prop, h, d, rest, logdir, rp, path)
         test_src = blocks[0]
         rp['test'] = test_src
         ok, out = run_playback(shard, h, test_src)
